@@ -22,6 +22,7 @@ type World struct {
 	Coins         []GenCoin      `json:"coins"`
 	Pools         []GenPool      `json:"pools"`
 	Frozen        []GenFrozen    `json:"frozen"`
+	Waitlist      []GenWait      `json:"waitlist"`
 	PriceCoin     string         `json:"priceCoin"` // symbol of the coin the price table is denominated in ("" = base)
 	PriceMode     string         `json:"priceMode"` // "primes" (default) | "flat" | "zero"
 	Emission      string         `json:"emission"`
@@ -351,6 +352,11 @@ func (w *World) BuildGenesis(n *Names) types.AppState {
 			st.Validators = append(st.Validators, types.Validator{TotalBipStake: total.String(), PubKey: n.Pub(c.Name), AccumReward: "0", AbsentTimes: types.NewBitArray(24)})
 		}
 	}
+	for _, wl := range w.Waitlist {
+		v := amt(wl.Value)
+		add(cid(wl.Coin), v)
+		st.Waitlist = append(st.Waitlist, types.Waitlist{CandidateID: candID[wl.Cand], Owner: n.Addr(wl.Owner), Coin: cid(wl.Coin), Value: v.String()})
+	}
 	for _, f := range w.Frozen {
 		v := amt(f.Value)
 		add(cid(f.Coin), v)
@@ -505,10 +511,15 @@ func StandardWorld(name string) *World {
 				Stakes: []GenStake{{Owner: o, Coin: "BIP", Value: fmt.Sprintf("%du", 1000*i)}}})
 		}
 		w.Candidates[1].Control = "a6" // v2's control address differs from its owner
+		w.Waitlist = []GenWait{{Owner: "a1", Cand: "v1", Coin: "BIP", Value: "70u"}, {Owner: "a2", Cand: "v3", Coin: "BIP", Value: "15u"}}
+		w.Frozen = []GenFrozen{{Height: 10197400 + 40, Owner: "a3", Cand: "v2", Coin: "BIP", Value: "25u"}, {Height: 10197400 + 9, Owner: "a3", Cand: "v4", Coin: "BIP", Value: "5u", MoveTo: "v1"}}
 		w.Candidates = append(w.Candidates, GenCandidate{Name: "c5", Owner: "a5", Reward: "a5", Control: "a5", Commission: 5, Online: false,
 			Stakes: []GenStake{{Owner: "a5", Coin: "BIP", Value: "1500u"}}})
 		withUSDT(w)
 		return w
+	}
+	if f, ok := extraWorlds[name]; ok {
+		return f()
 	}
 	panic("unknown world " + name)
 }
